@@ -68,26 +68,35 @@ def main():
     os.makedirs(dst, exist_ok=True)
     shutil.copy(patch, os.path.join(dst, "patch.diff"))
     shutil.copy(demo, os.path.join(dst, "demo.py"))
-    # run the checks against /repo with the change applied, then undo it straight away
-    assert sh("git -C %s status --porcelain" % REPO).stdout.strip() == b"", "/repo not clean"
-    r = sh("git -C %s apply %s" % (REPO, patch))
+    # run the checks against a scratch worktree of /repo with the change applied (VERIF_REPO selects the tree under test;
+    # scratch, evidence and replay output are relocated so that /verif and /repo stay untouched); the worktree is removed afterwards
+    wt2 = "/tmp/seedtree-%s" % sid
+    wk = "/tmp/seedwork-%s" % sid
+    sh("git -C %s worktree remove --force %s" % (REPO, wt2))
+    sh("rm -rf %s" % wk)
+    sh("git -C %s worktree add -q --detach %s HEAD" % (REPO, wt2))
+    assert sh("git -C %s apply %s" % (wt2, patch)).returncode == 0
+    os.makedirs(wk + "/work")
+    for shared in ("pyc", "cpy_tables.json"):
+        if os.path.exists(os.path.join(VERIF, "work", shared)):
+            os.symlink(os.path.join(VERIF, "work", shared), os.path.join(wk, "work", shared))
+    env = "VERIF_REPO=%s VERIF_WORK=%s/work VERIF_EVID=%s/evidence VERIF_REPLAYS=%s/replays" % (wt2, wk, wk, wk)
     caught = {}
     try:
         for c in checks:
             t0 = time.time()
-            p = sh("cd %s && timeout 3000 ./check %s --tier %s" % (VERIF, c, tier))
+            p = sh("cd %s && %s timeout 3000 ./check %s --tier %s" % (VERIF, env, c, tier))
             out = p.stdout.decode("utf-8", "replace")
             vio = [l for l in out.splitlines() if l.startswith("VIOLATION")]
             sigs = sorted(set(l.split("signature=")[1].split(" ")[0] for l in out.splitlines() if "signature=" in l))[:8]
             caught[c] = {"exit": p.returncode, "violations": len(vio), "signatures": sigs, "wall_s": round(time.time() - t0)}
-            meta["ran"].append("git -C /repo apply seeded/%s/patch.diff; ./check %s --tier %s -> exit %d, %d VIOLATION lines; git -C /repo checkout -- ." % (sid, c, tier, p.returncode, len(vio)))
+            if p.returncode == 2:
+                caught[c]["machinery"] = out[-600:]
+            meta["ran"].append("VERIF_REPO=<worktree of /repo HEAD + seeded/%s/patch.diff> ./check %s --tier %s -> exit %d, %d VIOLATION lines" % (sid, c, tier, p.returncode, len(vio)))
             print("  check %s: exit %d, %d VIOLATION lines %s" % (c, p.returncode, len(vio), sigs[:3]))
     finally:
-        sh("git -C %s checkout -- ." % REPO)
-        sh("git -C %s clean -fdq xdis" % REPO)
-    assert sh("git -C %s status --porcelain" % REPO).stdout.strip() == b"", "/repo not restored"
-    # evidence files were rewritten by runs against the changed tree: restore the committed ones
-    sh("git -C %s checkout -- evidence" % VERIF)
+        sh("git -C %s worktree remove --force %s" % (REPO, wt2))
+        sh("rm -rf %s" % wk)
     meta["checks"] = caught
     meta["caught_by"] = sorted(c for c, v in caught.items() if v["exit"] == 1)
     json.dump(meta, open(os.path.join(dst, "meta.json"), "w"), indent=1)
